@@ -148,6 +148,38 @@ class Impl:
             else:
                 return "bad-op"
             return "ok"
+        if op == "unparams":      # drop a parameter-set object (and the sessions using it) so that it is freed
+            import gc
+            pid = int(ws[1])
+            P = self.params.pop(pid, None)
+            for sid in [k for k, v in self.sessions.items() if getattr(v, "params", None) is P]:
+                del self.sessions[sid]
+                self.entropies.pop(sid, None)
+            del P
+            gc.collect()
+            return "ok"
+        if op == "reparams":
+            # replace parameter set <pid> by a NEW object with other seeds, trying to obtain the address of the
+            # freed one (CPython reuses freed blocks): anything keyed on id(params) would go stale
+            import gc
+            pid, gid = int(ws[1]), int(ws[2])
+            P = self.params.pop(pid, None)
+            for sid in [k for k, v in self.sessions.items() if getattr(v, "params", None) is P]:
+                del self.sessions[sid]
+                self.entropies.pop(sid, None)
+            old = id(P)
+            del P
+            gc.collect()
+            keep = []
+            new = None
+            for _ in range(3):
+                new = params_mod._Params(self.groups[gid], M=unhx(ws[3]), N=unhx(ws[4]), S=unhx(ws[5]))
+                if id(new) == old:
+                    break
+                keep.append(new)          # hold on to the misses so that the allocator must look elsewhere
+            self.params[pid] = new
+            del keep
+            return "ok"
         if op == "params" and ws[2] == "shipped":
             from spake2.parameters import all as pall
             self.params[int(ws[1])] = {"ed": pall.ParamsEd25519, "1024": pall.Params1024,
